@@ -1,0 +1,51 @@
+//go:build verif
+
+// Package verifhook provides named observation / rendez-vous points for the
+// runtime-verification harnesses kept outside this repository. It is compiled
+// in only with the `verif` build tag; without the tag every call is an empty
+// inlinable function (see hook_off.go) and the program is unchanged.
+package verifhook
+
+import "sync"
+
+// Enabled reports whether hooks are compiled in.
+const Enabled = true
+
+var (
+	mu    sync.RWMutex
+	hooks = map[string]func(args ...any){}
+)
+
+// Point invokes the callback registered under name, if any. It is placed only
+// where the surrounding code holds no lock, so a callback may block to force an
+// interleaving the program could also produce on its own.
+func Point(name string, args ...any) {
+	mu.RLock()
+	fn := hooks[name]
+	mu.RUnlock()
+	if fn != nil {
+		fn(args...)
+	}
+}
+
+// Set registers fn under name and returns a function restoring the previous
+// registration. Safe for concurrent use.
+func Set(name string, fn func(args ...any)) (restore func()) {
+	mu.Lock()
+	prev, had := hooks[name]
+	if fn == nil {
+		delete(hooks, name)
+	} else {
+		hooks[name] = fn
+	}
+	mu.Unlock()
+	return func() {
+		mu.Lock()
+		if had {
+			hooks[name] = prev
+		} else {
+			delete(hooks, name)
+		}
+		mu.Unlock()
+	}
+}
